@@ -248,6 +248,8 @@ class GenInfo:
         self.used_ghosts = set()
         self.opaque = []           # functions left unverified because the verifier could not read them
         self.underivable = []
+        self.pub_fields = []
+        self.invariant_audit = []
         self.lost = []             # (contract key, props) whose function no longer exists
         self.lost_ghosts = []
 
@@ -257,6 +259,7 @@ def render_file(path, module, moddir, ctx):
     sc, toks = scan(src, module)
     info, fncontracts, ghosts = ctx['info'], ctx['fncontracts'], ctx['ghosts']
     info.files.append({'path': path, 'sha256': sha(src), 'module': module})
+    info.pub_fields += scan_pub_fields(src)
     info.unsafe += sc.unsafe_count
     info.loops += sc.loops
     edits = []
@@ -416,7 +419,12 @@ def render_file(path, module, moddir, ctx):
             edits.append(Edit(f.sig_start, f.body_end, head + new_sig + ctext + ('    ' if ctext else ' ') + new_body + '/*@ENDFN@*/'))
         else:
             edits.append(Edit(f.sig_start, f.body_end, head + new_sig + ctext + ';' + '/*@ENDFN@*/'))
+        ptxt = src[f.params_span[0]:f.params_span[1]]
+        rtxt = src[f.ret_span[0]:f.ret_span[1]] if f.ret_span else ''
+        owner_ty = f.owner.split(' for ')[-1]
         info.functions.append({'key': key, 'file': rel, 'has_body': f.has_body, 'has_contract': bool(c), 'props': props,
+                               'mut_self': bool(re.search(r'&\s*(\'\w+\s+)?mut\s+self', ptxt)),
+                               'returns_self': bool(re.search(r'\bSelf\b', rtxt)) or (owner_ty != '' and bool(re.search(r'\b%s\b' % re.escape(owner_ty), rtxt))),
                                'body_sha256': sha(body) if body else None, 'body': body, 'prologue': bool(prologue),
                                'external_body': any('external_body' in a for a in attrs)})
 
@@ -540,3 +548,45 @@ def audit(info):
     info.bodies_digest = dig.hexdigest()
     if info.unsafe:
         raise ExtractError('the crate now contains `unsafe`: invariants can no longer be assumed to hold between calls (assumption A5)')
+    # A5: representation invariants hold in every reachable state only if (i) the fields are private and (ii) every
+    # constructor / mutator of the types that carry an invariant is under contract
+    info.invariant_audit = []
+    for f in info.functions:
+        owner = f['key'].rsplit('::', 1)[0]
+        ty = owner.split(' for ')[-1]
+        if ty in INVARIANT_TYPES and f['has_body'] and (f.get('mut_self') or f.get('returns_self')) and not f['has_contract'] \
+                and not f['key'].startswith('ScancodeSet for '):
+            info.invariant_audit.append('%s mutates or constructs %s but has no contract: the invariant is not known to hold after it' % (f['key'], ty))
+    for name in info.pub_fields:
+        info.invariant_audit.append('struct %s has a public field: its invariant can be broken from outside' % name)
+
+
+INVARIANT_TYPES = ('Ps2Decoder', 'ScancodeSet1', 'ScancodeSet2', 'EventDecoder', 'Keyboard')
+
+
+def scan_pub_fields(src):
+    """names of invariant-carrying structs that declare a `pub` field"""
+    from .rustlex import match_close
+    toks = lex(src)
+    S = [t for t in toks if t.kind not in ('ws', 'lcomment', 'bcomment')]
+    out = []
+    for i, t in enumerate(S):
+        if t.kind == 'id' and t.text == 'struct' and i + 1 < len(S) and S[i + 1].text in INVARIANT_TYPES:
+            j = i + 2
+            while j < len(S) and S[j].text not in ('{', ';', '('):
+                j += 1
+            if j < len(S) and S[j].text == '{':
+                depth = 0
+                k = j
+                while k < len(S):
+                    if S[k].text == '{':
+                        depth += 1
+                    elif S[k].text == '}':
+                        depth -= 1
+                        if depth == 0:
+                            break
+                    elif depth == 1 and S[k].kind == 'id' and S[k].text == 'pub':
+                        out.append(S[i + 1].text)
+                        break
+                    k += 1
+    return out
